@@ -27,6 +27,9 @@ FEATURE_WHITELIST = {'4': ['cold-store-then-load'], '5': ['cold-store-then-load'
 DEFAULT_FEATURES = []      # feature exclusions proved unreliable for the 6.x+ variants: whole cells only
 
 
+ALWAYS_EXCLUDED = {'4': ['cold-store-then-load'], '5': ['cold-store-then-load']}
+
+
 def cell_rule(cells, profile, variant, par):
     """None = cell outside the domain; [] = whole cell; [F] = programs without feature F"""
     if variant in SSA_ONLY and profile not in SSA_PROFILES:
@@ -35,7 +38,10 @@ def cell_rule(cells, profile, variant, par):
     if not c or c['n'] < MIN_N:
         return None
     if c['fail'] == 0:
-        return []
+        # MVP-4/5: the store-buffer defect (finding SYS-store-buffer-mvp45, witness theorems
+        # C05_mvp4_cold_store_then_load_refuted / C05_mvp5_...) is excluded by its mechanism in EVERY cell,
+        # also where calibration happened not to hit it (it needs three cold stores and a load of the last line)
+        return list(ALWAYS_EXCLUDED.get(variant, []))
     for F in FEATURE_WHITELIST.get(variant, DEFAULT_FEATURES):
         if c['fail_without'].get(F, 0) == 0 and c['n_without'].get(F, 0) >= MIN_N_WITHOUT:
             return [F]
